@@ -733,7 +733,9 @@ func (t *Table) IndexesDescription() ([]types.GlobalSecondaryIndexDescription, [
 	gsi := []types.GlobalSecondaryIndexDescription{}
 	lsi := []types.LocalSecondaryIndexDescription{}
 
-	for indexName, index := range t.Indexes {
+	for name, index := range t.Indexes {
+		// every description needs its own variable to point to
+		indexName := name
 		schema := index.keySchema.describe()
 		count := index.count()
 
